@@ -139,6 +139,7 @@ TypesViol(r) ==
            LET n == r[2] IN
            (IF r[3] = B2I(n <= 63) THEN {} ELSE {<<"C16", "can_be_part_of_14_bit">>})
            \cup (IF r[4] = (IF n <= 31 THEN n + 32 ELSE None) THEN {} ELSE {<<"C16", "corresponding_lsb">>})
+           \cup (IF r[4] = None \/ r[4] \in 0..127 THEN {} ELSE {<<"C04", "controller-number-out-of-range">>})
            \cup (IF r[5] = B2I(n \in PnControllers) THEN {} ELSE {<<"C16", "is_parameter_number_controller">>})
            \cup (IF r[6] = B2I(n >= 120) THEN {} ELSE {<<"C02", "is_channel_mode_controller">>})
            \cup (IF r[7] = 0 /\ ~HasPanic(r) THEN {} ELSE {<<"C18", "types">>})
@@ -261,6 +262,9 @@ FactoryViol(r) ==
              THEN LET vec == Sub(r, 9, 26)  exp == Obs(eb[1], eb[2], eb[3]) IN
                   (IF vec = exp THEN {} ELSE {<<"C06", "ctor" \o ToString(c) \o "-acc" \o ToString(FirstDiff(vec, exp))>>})
                   \cup (IF r[35] = 0 /\ ~HasPanic(vec) THEN {} ELSE {<<"C18", "factory-accessors">>})
+                  \* `vec` was taken with method syntax on the concrete type (what the caller of a constructor
+                  \* writes); r[36] = 1 iff the same calls through the trait gave the same vector
+                  \cup (IF Len(r) < 36 \/ r[36] = 1 THEN {} ELSE {<<"C06", "method-syntax-vs-trait">>, <<"C02", "method-syntax-vs-trait">>})
                   \cup (IF vec[16] <= 127 /\ vec[17] <= 127 THEN {} ELSE {<<"C04", "data-byte-out-of-range">>})
              ELSE {})
        \* C04: whatever the panic column says, a constructed value is never out of range
@@ -389,7 +393,20 @@ MiscViol(r) ==
       [] r[1] = 2 -> (IF r[2] = 128 /\ r[3] = 255 THEN {} ELSE {<<"GROWTH", "type-min-max">>})
       [] r[1] = 3 -> (IF r[3] = B2I(r[2] <= 3) /\ (r[3] = 1 => r[4] = r[2]) THEN {} ELSE {<<"GROWTH", "time-code-type">>})
 
+(******************************** table `first` ****************************)
+(* r = [impl (0 raw, 1 structured, 2 byte-getter-only third party), j, s, d1, d2, first, vec(26)]:        *)
+(* accessor j (0-based cell of the observation vector) was the FIRST query a fresh process made.            *)
+FirstViol(r) ==
+    LET imp == r[1]  j == r[2]  s == r[3]  d1 == r[4]  d2 == r[5]
+        c == Canon(s, d1, d2)
+        exp == IF imp = 1 THEN Obs(c[1], c[2], c[3]) ELSE Obs(s, d1, d2)
+        vec == Sub(r, 7, 26)
+    IN (IF r[6] = exp[j + 1] THEN {} ELSE {<<"C02", "first-query-of-a-process">>, <<"C03", "first-query-of-a-process">>})
+       \cup (IF vec = exp THEN {} ELSE {<<"C02", "after-first-query">>, <<"C03", "after-first-query">>})
+       \cup (IF HasPanic(r) THEN {<<"C18", "panic">>} ELSE {})
+
 RowViol(r) == CASE Table = "short" -> ShortViol(r)
+                [] Table = "first" -> FirstViol(r)
                 [] Table = "misc" -> MiscViol(r)
                 [] Table = "serde" -> SerdeViol(r)
                 [] Table = "factory" -> FactoryViol(r)
